@@ -151,7 +151,9 @@ func (br *bodyRun) callStatic(st *State, fn *ssa.Function, bindings []Val, argVa
 			fc.touched[k] = true
 			fc.havocKey(st, k, fr.keys[k])
 		}
-		fc.havocHeld(st)
+		if fr.locks {
+			fc.havocHeld(st)
+		}
 		return fc.freshTyped(st, rt, "call")
 	}
 	if !fc.light {
@@ -246,9 +248,11 @@ func (fc *FnCtx) fnModifies(fn *ssa.Function, depth int) ([]keySort, bool) {
 	for k, s := range fr.keys {
 		out = append(out, mkKS(k, s))
 	}
-	for k, s := range fc.keySort {
-		if strings.HasPrefix(k, "ghost|held|") {
-			out = append(out, mkKS(k, s))
+	if fr.locks {
+		for k, s := range fc.keySort {
+			if strings.HasPrefix(k, "ghost|held|") {
+				out = append(out, mkKS(k, s))
+			}
 		}
 	}
 	return out, false
